@@ -175,6 +175,17 @@ CHECKS = {
         "Exhaustive over the stated alphabets only. strref is self-tested against Z3's own string functions at set-up.",
         "DESIGN.md §2 C03",
     ),
+    "C06": (
+        "model_checking",
+        "explicit-state exploration of the hash-cons table: every ordered pair (thorough: + triples per group) of build requests from a pool, results kept alive, table emptied between histories; deep-descriptor oracle",
+        "Pool of ~210 (thorough ~290) requests: plain / annotated leaves at widths 1, 8, 64 with annotation field values "
+        "whose Python hashes collide (-1/-2, 0/2^61-1, 1/2^61), user annotation classes with constant / default / "
+        "shared-recipe hashes, BVV with annotations= vs annotate(), depth-1 operations with annotated operands, "
+        "FP / string / Bool leaves and serialisation-aliasing candidates. O1: returned object has the requested "
+        "descriptor; O2: equal descriptors with ==-equal annotations are one object.",
+        "Annotation contents = type + instance fields. Known finding: annotations are keyed by hash() (exact case lists).",
+        "DESIGN.md §2 C06",
+    ),
 }
 
 NOT_YET = "check not built yet in this session (planned; see DESIGN.md §2)"
